@@ -109,9 +109,14 @@ func (c *clientService) Remove(objectID uint32) error {
 }
 
 func (c *clientService) Terminate() error {
+	// Remove takes the lock itself: do not hold it here.
 	c.objectsMutex.RLock()
-	defer c.objectsMutex.RUnlock()
+	ids := make([]uint32, 0, len(c.objectsHandlers))
 	for id := range c.objectsHandlers {
+		ids = append(ids, id)
+	}
+	c.objectsMutex.RUnlock()
+	for _, id := range ids {
 		err := c.Remove(id)
 		if err != nil {
 			return err
